@@ -137,13 +137,13 @@ pub fn spec_for(property: &str) -> Option<CheckSpec> {
         "C12" => CheckSpec {
             property: "C12".into(),
             level: "exploration",
-            profiles: vec![p("seq", 4), p("seq-maint", 4), p("seq-filter", 1), p("conc", 3)],
+            profiles: vec![p("seq", 4), p("seq-maint", 4), p("seq-filter", 1), p("conc", 3), p("crash-kill", 1), p("crash-double", 1)],
             thorough_extra: vec![],
             quick_runs: 8_000,
             thorough_runs: 400_000,
             quick_budget_s: 60,
             thorough_budget_s: 600,
-            nontrivial_rule: "monitor over the ordered I/O tap (sequential profiles and concurrent clients, where writes land while a background sync is in flight) with the dirty-byte limit drawn from {0,1,100,4096,1MiB,32MiB}: (a) a record is written into a blob only after a sync covering its header; (b) the header rewrite that sets an index's written bit comes after a sync of the blob covering the blob size recorded in that header; (c) after explicit fsyncdata Ok (no concurrent writer) and after a successful try_close_active_blob/close (active blob observed at a quiescent point) written length = synced length of that blob; (d) at quiescent points (no simulated job in flight, no I/O for three 2 ms windows) un-synced bytes of the active blob <= limit. Non-trivial = >= 3 data operations and at least one index marked complete or one quiescent dirty-bound check; distinct = distinct I/O event signature",
+            nontrivial_rule: "monitor over the ordered I/O tap (sequential profiles, concurrent clients, where writes land while a background sync is in flight, and a share of crash-kill / crash-double runs, where the synced length of a blob is carried across a process kill and rule (b) is re-stated on the image that survives a power loss) with the dirty-byte limit drawn from {0,1,100,4096,1MiB,32MiB}: (a) a record is written into a blob only after a sync covering its header; (b) the header rewrite that sets an index's written bit comes after a sync of the blob covering the blob size recorded in that header; (c) after explicit fsyncdata Ok (no concurrent writer) and after a successful try_close_active_blob/close (active blob observed at a quiescent point) written length = synced length of that blob; (d) at quiescent points (no simulated job in flight, no I/O for three 2 ms windows) un-synced bytes of the active blob <= limit. Non-trivial = >= 3 data operations and at least one index marked complete or one quiescent dirty-bound check; distinct = distinct I/O event signature",
             nontrivial: nt_sync,
             assumptions: a,
             expected_probes: vec!["index_marked_complete", "dirty_bound_checked"],
